@@ -551,7 +551,7 @@ def umul(a, b):
 
 
 def _defer(o):
-    return hasattr(o, 'store') or hasattr(o, '_get')   # symbolic arrays handle mixed arithmetic themselves
+    return hasattr(o, 'store') or hasattr(o, '_get') or isinstance(o, SNaN)   # symbolic arrays (and NaN) handle mixed arithmetic themselves
 
 
 class SReal:
@@ -571,6 +571,8 @@ class SReal:
         return SReal(s.z - rv(o))
 
     def __rsub__(s, o):
+        if isinstance(o, SNaN):
+            return o
         return SReal(rv(o) - s.z)
 
     def __mul__(s, o):
@@ -581,6 +583,8 @@ class SReal:
     __rmul__ = __mul__
 
     def __truediv__(s, o):
+        if isinstance(o, SNaN):
+            return o
         oz = rv(o)
         if not z3.is_rational_value(z3.simplify(oz)) and DIV_GUARD:
             if not decide(oz != 0):
@@ -677,9 +681,50 @@ DIV_GUARD = True
 SQRT = z3.Function('SQRT', z3.RealSort(), z3.RealSort())
 
 
+SQRT_DOMAIN = False     # when set, sqrt of an argument that can be negative forks: the negative branch yields NaN
+
+
+class SNaN:
+    """IEEE NaN as NumPy's real-valued functions produce it outside their domain (sqrt / log of a negative number):
+    arithmetic propagates it, every ordered comparison is False, conversion to int raises ValueError"""
+
+    def _same(s, *a, **k):
+        return s
+    __add__ = __radd__ = __sub__ = __rsub__ = __mul__ = __rmul__ = __truediv__ = __rtruediv__ = _same
+    __pow__ = __rpow__ = __neg__ = __pos__ = __abs__ = __floordiv__ = __rfloordiv__ = __mod__ = __rmod__ = _same
+
+    def __lt__(s, o):
+        return False
+    __le__ = __gt__ = __ge__ = __eq__ = __lt__
+
+    def __ne__(s, o):
+        return True
+
+    def __hash__(s):
+        return 0
+
+    def __bool__(s):
+        return True
+
+    def __float__(s):
+        return float('nan')
+
+    def __int__(s):
+        raise ValueError('cannot convert float NaN to integer')
+
+    __index__ = __int__
+
+    def __repr__(s):
+        return 'nan'
+
+
 def ssqrt(v):
     """sqrt as an uninterpreted function with its defining axioms instantiated on the argument."""
+    if isinstance(v, SNaN):
+        return v
     vz = rv(v)
+    if SQRT_DOMAIN and Ctx.cur is not None and not decide(vz >= 0):
+        return SNaN()
     r = SQRT(vz)
     c = Ctx.cur
     if c is not None:
@@ -694,13 +739,13 @@ def sint_trunc(v):
 
 
 def sfloor(v):
-    if isinstance(v, (int, SInt)):
+    if isinstance(v, (int, SInt, SNaN)):
         return v
     return SInt(z3.ToInt(rv(v)))
 
 
 def sceil(v):
-    if isinstance(v, (int, SInt)):
+    if isinstance(v, (int, SInt, SNaN)):
         return v
     return SInt(-z3.ToInt(-rv(v)))
 
@@ -785,6 +830,8 @@ def sint(v, *a):
     """stand-in for builtins.int"""
     if isinstance(v, SInt):
         return v
+    if isinstance(v, SNaN):
+        raise ValueError('cannot convert float NaN to integer')
     if isinstance(v, SReal):
         return sint_trunc(v)
     if isinstance(v, SBool):
@@ -806,7 +853,7 @@ class int_type(builtins.int, metaclass=_IntMeta):
 
 def sfloat(v=0.0):
     """stand-in for builtins.float: exact on symbolic values (reals model the float64 computation, see DESIGN 1.3)"""
-    if isinstance(v, SReal):
+    if isinstance(v, (SReal, SNaN)):
         return v
     if isinstance(v, SInt):
         return SReal(z3.ToReal(v.z))
